@@ -12,7 +12,7 @@ Level 2 (records): `step` / `loadFrom` is the state machine of
 
 Two variants of the loader are kept: `Variant.pinned` is the code of the pinned
 tree, `Variant.repaired` the code after the three `fix:` commits (metadata
-parsed inside the tolerant block; open data point reset at a `#!` line;
+parsed inside the tolerant block; open data point reset at every comment line;
 an unterminated last line ignored).  Imports nothing outside core Lean.
 -/
 
@@ -187,8 +187,8 @@ def classify (pl : Payloads) (hdr : Text) (l : Line) : Rec :=
 structure Variant where
   /-- metadata lines are parsed inside `try … except (ValueError, IndexError)` -/
   metaTolerant : Bool
-  /-- a `#!` line resets the open data point -/
-  resetAtSession : Bool
+  /-- every `#` line resets the open data point -/
+  resetAtComment : Bool
   /-- a last line without `\n` is ignored -/
   skipUnterminated : Bool
   deriving Repr, DecidableEq
@@ -257,24 +257,31 @@ def stepMeas (st : LState) (m : Meas) : Except End LState :=
       else
         .ok { st with cur := some ⟨r, some m.inv, ms⟩ }
 
-def step (v : Variant) (st : LState) : Rec → Except End LState
-  | .session => .ok (if v.resetAtSession then { st with cur := none } else st)
-  | .comment => .ok st
-  | .header => .ok st
+/-- a `#` line: the repaired loader forgets the open data point (comment lines are never
+written inside a data point) -/
+def atComment (v : Variant) (st : LState) : LState :=
+  if v.resetAtComment then { st with cur := none } else st
+
+def step (v : Variant) (st0 : LState) : Rec → Except End LState
+  | .session => .ok (atComment v st0)
+  | .comment => .ok (atComment v st0)
+  | .header => .ok st0
   | .bench id key =>
+      let st := atComment v st0
       -- persistence.py:292-295
       if key ∈ st.benches then .error (.crash .assertion)
       else if st.benches.length ≠ id then .error (.crash .assertion)
       else .ok { st with benches := st.benches ++ [key] }
-  | .run id bid key =>
+  | .run id bid _bkey =>
+      let st := atComment v st0
       -- persistence.py:303-308
       if bid < st.benches.length then
         if st.runs.length ≠ id then .error (.crash .assertion)
-        else .ok { st with runs := st.runs ++ [key] }
+        else .ok { st with runs := st.runs ++ [_bkey] }
       else tolerate v.metaTolerant st .index
-  | .metaErr e => tolerate v.metaTolerant st e
-  | .meas m => stepMeas st m
-  | .dataErr e => tolerate true st e
+  | .metaErr e => tolerate v.metaTolerant (atComment v st0) e
+  | .meas m => stepMeas st0 m
+  | .dataErr e => tolerate true st0 e
 
 def loadFrom (v : Variant) (st : LState) : List Rec → Except End LState
   | [] => .ok st
